@@ -2,6 +2,7 @@ package flows
 
 import (
 	"fmt"
+	"sort"
 	"strings"
 
 	"github.com/nyaruka/gocommon/i18n"
@@ -98,8 +99,15 @@ func (t *TemplateTranslation) Preview(vars []*TemplatingVariable) *MsgContent {
 
 	for _, comp := range t.Components() {
 		content := comp.Content()
-		for key, index := range comp.Variables() {
-			variable := vars[index]
+		// substitute variables in a fixed order because a value can itself look like a placeholder
+		keys := make([]string, 0, len(comp.Variables()))
+		for key := range comp.Variables() {
+			keys = append(keys, key)
+		}
+		sort.Strings(keys)
+
+		for _, key := range keys {
+			variable := vars[comp.Variables()[key]]
 
 			if variable.Type == "text" {
 				content = strings.ReplaceAll(content, fmt.Sprintf("{{%s}}", key), variable.Value)
